@@ -73,10 +73,13 @@ impl<K, V, const N: usize> Map<K, V, N> {
     /// ```
     #[inline]
     pub fn clear(&mut self) {
-        for i in 0..self.len {
+        // reset the length first, so that a panicking `Drop` cannot leave
+        // already dropped pairs reachable (they would be dropped again)
+        let len = self.len;
+        self.len = 0;
+        for i in 0..len {
             unsafe { self.item_drop(i) };
         }
-        self.len = 0;
     }
 
     /// Retains only the elements specified by the predicate.
